@@ -62,11 +62,14 @@ pub fn print_o(e: &Value, prec: u8, out: &mut String, o: &PrintOpt) {
         }
         "lit" => {
             let ci = e.get("ci").and_then(|v| v.as_bool()).unwrap_or(false);
+            let cs = e.get("cs").and_then(|v| v.as_bool()).unwrap_or(false);
             if ci {
                 out.push_str("(?i:")
+            } else if cs {
+                out.push_str("(?-i:")
             }
             push_lit_char(out, tok2char(s(e, "c")), false);
-            if ci {
+            if ci || cs {
                 out.push(')')
             }
         }
